@@ -38,6 +38,7 @@ EXPLANATION = (
     "stale identifiers across service restarts and node reboots, that the terminal service on the target is running "
     "when a packet arrives (C13's receive-gate rule), and exceptions raised for unknown identifiers (C01/C05)."
 )
+TECHNIQUE = "static: truth tables of authentication/limit/last-admin guards, CFG must-pass from credential check to session creation and from session validation to command execution, pairing of removals"
 ASSUMPTIONS = [
     "sessions are created only through UserSession.create / RemoteUserSession.create or their constructors (inventoried)",
     "no setattr/exec writes to the session tables or account flags (dynamic-feature census)",
